@@ -329,9 +329,10 @@ def _run(c, d, rebound, drv, open_exe, app_exe, W):
     c.assumptions += ["crash model: a write is an in-place overwrite/extension, a crash leaves a byte prefix of the write (no reordering, no torn bytes, no truncation)",
                       "restart theorem needs NoFakeTrailer: the interrupted write leaves no bytes that read as END header ++ trailer where the repair walk looks (evaluated on every image by the driver)"]
     st = dict(archives=0, appends=0, plan_equal=0, images=0, images_first=0, model_equal=0, py_images=0, restarts=0, restart_equal=0,
-              restart_bytes_equal=0, chains=0, chain_links=0, nofake_true=0, nofake_false=0, died=0, f2_images=0, hazards=0, exhaustive_appends=0,
+              restart_bytes_equal=0, chains=0, chain_links=0, nofake_true=0, nofake_false=0, chain_nofake_true=0, chain_nofake_false=0, died=0, f2_images=0, hazards=0, exhaustive_appends=0,
               auto_restarts=0)
     cutclass = {}
+    nofake_false_classes = {}
     c.cov["strace"] = strace_check(c, d, W, app_exe, drv, V)
     t_start = time.time()
     budget = (20 * 60) if c.thorough else 80
@@ -438,6 +439,13 @@ def _run(c, d, rebound, drv, open_exe, app_exe, W):
                                        "new-trailer" if k >= len(data) - 12 else "END" if k >= len(data) - 28 else "delta")
                 cutclass[cls] = cutclass.get(cls, 0) + 1
                 c.count((cls, j, hist["structural"] or "free", hist["init"]["integrator"]), nontrivial=True)
+                # NoFakeTrailer (hypothesis of the restart theorem) evaluated by the model on this image
+                nf = mvk.split(":")[-1]
+                if nf == "R":
+                    st["nofake_true"] += 1
+                elif nf == "x" and not full:
+                    st["nofake_false"] += 1
+                    nofake_false_classes[cls] = nofake_false_classes.get(cls, 0) + 1
                 st["images_first" if fresh else "images"] += 1
                 rep = dict(history=hist, append=j, cut=k, of=len(data), c_reader=r, model=mvk)
                 # ---- property on the real code
@@ -513,6 +521,8 @@ def _run(c, d, rebound, drv, open_exe, app_exe, W):
         if hist["init"]["integrator"] in RESTARTABLE and all(o[0] in ("snap", "steps", "set", "edit", "hash", "lrescale", "integrator", "nop") for o in hist["ops"]) and n >= 3:
             restart_case(c, rebound, drv, open_exe, V, v, hist, wd, n, rng, st)
         shutil.rmtree(wd, ignore_errors=True)
+    # ------------------------------------------------------------------ the contrived fake-trailer image (once per run)
+    fake_trailer_case(c, rebound, drv, V, os.path.join(W, "fake"), st)
     # ------------------------------------------------------------------ automatic cadence: crash + restart
     na = 12 if c.thorough else 3
     for i in range(na):
@@ -521,6 +531,7 @@ def _run(c, d, rebound, drv, open_exe, app_exe, W):
         auto_restart_case(c, rebound, open_exe, c.rng.fork(), os.path.join(W, "auto%d" % i), st)
     c.cov.update(st)
     c.cov["cut_class_histogram"] = cutclass
+    c.cov["nofake_false_by_cut_class"] = nofake_false_classes
     c.log("archives %d appends %d images %d+%d model_equal %d restarts %d/%d chains %d" % (
         st["archives"], st["appends"], st["images"], st["images_first"], st["model_equal"], st["restart_equal"], st["restarts"], st["chains"]))
 
@@ -579,7 +590,7 @@ def restart_case(c, rebound, drv, open_exe, V, v, hist, wd, n, rng, st):
         # NoFakeTrailer, evaluated by the model on the image
         open(img, "wb").write(cur_before)
         nf = run_driver(drv, ["nofake %s %d" % (img, pos + 12)])[0]
-        st["nofake_true" if nf == "true" else "nofake_false"] += 1
+        st["chain_nofake_true" if nf == "true" else "chain_nofake_false"] += 1
     if chain > 1:
         st["chains"] += 1
     open(img, "wb").write(cur_before)
@@ -619,6 +630,107 @@ def restart_case(c, rebound, drv, open_exe, V, v, hist, wd, n, rng, st):
             st["restart_bytes_equal"] += 1
         else:
             c.corr_break("model append on a crash image differs from the file the real restart wrote (%s)" % o[:80], rep)
+
+
+K_FAKE = "LIMIT:fake-trailer-defeats-repair-test"
+
+
+def fake_trailer_case(c, rebound, drv, V, wd, st):
+    """DESIGN C07: the writer's corruption test reads only the last 28 bytes of the file and one earlier trailer.
+    A delta whose particle payload contains bytes that read as `END header ++ trailer` (a particle with
+    x = 4.94e-320 = u64 9999, y = 0, z = two int32 (index, offset_prev = 116), low half of vx = 0), preceded 128
+    bytes earlier by 12 bytes whose last 4 are 116, cut exactly after the fake trailer, is judged "not corrupt":
+    the restarted append goes to the end of the interrupted write instead of the last intact trailer.
+    Built and replayed on the real code once per run; the model must predict it (NoFakeTrailer = false) and
+    reproduce the bytes the real restart writes."""
+    os.makedirs(wd, exist_ok=True)
+    full, a0p = os.path.join(wd, "full.bin"), os.path.join(wd, "a0.bin")
+    dbl = lambda bs: struct.unpack("<d", bs)[0]
+    P = 116
+    crafted = [dict(i=1, z=dbl(struct.pack("<ii", 7, 7)), vx=dbl(struct.pack("<iI", P, 0))),
+               dict(i=2, x=dbl(struct.pack("<Q", 9999)), y=0.0, z=dbl(struct.pack("<ii", 1, P)), vx=0.0)]
+
+    def apply1(sim):
+        for cr in crafted:
+            for kk, vv in cr.items():
+                if kk != "i":
+                    setattr(sim.particles[cr["i"]], kk, vv)
+
+    def apply2(sim):
+        sim.G = 0.5
+
+    def fullrun():
+        import warnings
+        warnings.filterwarnings("ignore")
+        sim = rebound.Simulation()
+        sim.integrator = "none"
+        sim.add(m=1.0); sim.add(m=1e-3, x=1.0, vy=1.0); sim.add(m=1e-3, x=2.0, vy=0.7)
+        sim.save_to_file(full)
+        shutil.copy(full, a0p)
+        apply1(sim)
+        sim.save_to_file(full)
+        p = os.path.join(wd, "s1.bin")
+        sim.save_to_file(p)
+        apply2(sim)
+        sim.save_to_file(full)
+    if ac.fork_run(fullrun) != 0:
+        st["hazards"] += 1
+        return
+    a0, a2 = open(a0p, "rb").read(), open(full, "rb").read()
+    blobs = ac.parse_archive(a2)
+    if len(blobs) != 3:
+        return
+    pos = len(a0) - 12
+    data = a2[pos:blobs[1]["end"]]
+    # offset of particle 2 inside the write
+    q, poff = 12, None
+    while q + 16 <= len(data):
+        ty, _, size = struct.unpack_from("<IIQ", data, q)
+        if ty == ac.PARTICLES:
+            poff = q + 16
+            break
+        if ty == ac.END:
+            break
+        q += 16 + size
+    if poff is None:
+        return
+    k = poff + 2 * 128 + 28
+    img = os.path.join(wd, "img.bin")
+    open(img, "wb").write(a0[:pos] + data[:k])
+    nf = run_driver(drv, ["nofake %s %d" % (img, pos + 12)])[0]
+    shutil.copy(img, os.path.join(wd, "img0.bin"))
+
+    def restart():
+        import warnings
+        warnings.filterwarnings("ignore")
+        sim = rebound.Simulation(img, snapshot=-1)
+        apply1(sim)
+        p = os.path.join(wd, "rs.bin")
+        sim.save_to_file(p)
+        sim.save_to_file(img)
+        shutil.copy(img, os.path.join(wd, "after1.bin"))
+        apply2(sim)
+        sim.save_to_file(img)
+    rc = ac.fork_run(restart)
+    ok, det = compare_archives(rebound, img, full, wd) if rc == 0 else (False, dict(rc=rc))
+    c.count(("fake-trailer", nf, ok))
+    st["fake_trailer"] = dict(cut=k, of=len(data), model_nofake=nf, restart_rc=rc, restart_equal=ok,
+                              exposed=det.get("n") if isinstance(det, dict) else None)
+    # tie: the model's append on the image = the bytes the real restart wrote
+    mo = os.path.join(wd, "m.bin")
+    if rc == 0 and os.path.exists(os.path.join(wd, "after1.bin")):
+        o = run_driver(drv, ["append %s %s %s %s" % (V, os.path.join(wd, "img0.bin"), os.path.join(wd, "rs.bin"), mo)])[0]
+        same = o.startswith("ok") and open(mo, "rb").read() == open(os.path.join(wd, "after1.bin"), "rb").read()
+        st["fake_trailer"]["model_bytes_equal"] = same
+        if not same:
+            c.corr_break("model append on the fake-trailer image differs from the real restart (%s)" % o[:80], st["fake_trailer"])
+    if ok and nf != "true":
+        c.corr_break("model says NoFakeTrailer is false for the contrived image but the real restart recovers", st["fake_trailer"])
+    if not ok:
+        if nf == "true":
+            c.violation("restart-differs:fake-trailer-unpredicted", "restart from the contrived image fails although NoFakeTrailer holds: %s" % json.dumps(det)[:200], st["fake_trailer"])
+        else:
+            c.violation(K_FAKE, "restart from a crash image whose last 28 bytes imitate END + trailer appends behind the interrupted write: %s" % json.dumps(det)[:200], st["fake_trailer"])
 
 
 def auto_restart_case(c, rebound, open_exe, rng, wd, st):
